@@ -4,6 +4,7 @@ import Driver.Eval
 import Driver.Decision
 import Driver.Reduce
 import Driver.Lineage
+import Driver.Front
 /-
   oxidriver: line protocol over the executable model.
   One request per line: `<op> <arg> ...`; one answer line per request.
@@ -11,7 +12,7 @@ import Driver.Lineage
 -/
 namespace Driver
 
-def handlers : List (List String → Option String) := [handleFilters, handleGeom, handleEval, handleDecision, handleReduce, handleLineage]
+def handlers : List (List String → Option String) := [handleFilters, handleGeom, handleEval, handleDecision, handleReduce, handleLineage, handleFront]
 
 def handle (args : List String) : String :=
   match handlers.findSome? (fun h => h args) with
